@@ -176,6 +176,68 @@ func ruleR41(c *Ctx) *RuleResult {
 			r.ok(key, clause, "-", fmt.Sprintf("%d comparator call(s) in the heap's methods; every child-slot argument is read under its bound", ncalls))
 		}
 	}
+	// the index range of a level: a function of the package that answers (start, end int) for one int (`evaluateRange`, where
+	// it exists as such) describes level k of the implicit tree — 2^k slots starting at 2^k - 1. In linear arithmetic over
+	// the power-of-two atoms it is written with (x << c read as 2^c·x): end - start = start + 1. A level one too wide hands
+	// the first slot of the next level to this level's ordering.
+	if fn := p.FuncByName("trees/binaryheap", "evaluateRange"); fn != nil && fn.Signature.Params().Len() == 1 && fn.Signature.Results().Len() == 2 {
+		key := "trees/binaryheap.Iterator.level-range"
+		clause := "the slots [start, end) of a level number start + 1: end - start = start + 1 in linear arithmetic over the powers of two the function is written with"
+		gc := c.GC(fn)
+		var bad []string
+		n := 0
+		var shl func(t *Term) lin
+		shl = func(t *Term) lin {
+			if k, ok := t.constInt(); ok {
+				return linConst(int(k))
+			}
+			switch {
+			case t.Op == "+" && len(t.Args) == 2:
+				return shl(t.Args[0]).add(shl(t.Args[1]), 1)
+			case t.Op == "-" && len(t.Args) == 2:
+				return shl(t.Args[0]).add(shl(t.Args[1]), -1)
+			case t.Op == "<<" && len(t.Args) == 2:
+				if k, ok := t.Args[1].constInt(); ok && k >= 0 && k < 8 {
+					x := shl(t.Args[0])
+					out := linConst(0)
+					for i := 0; i < 1<<uint(k); i++ {
+						out = out.add(x, 1)
+					}
+					return out
+				}
+			case t.Op == "*" && len(t.Args) == 2:
+				for i := 0; i < 2; i++ {
+					if k, ok := t.Args[i].constInt(); ok && k >= 0 && k < 64 {
+						x := shl(t.Args[1-i])
+						out := linConst(0)
+						for j := 0; j < int(k); j++ {
+							out = out.add(x, 1)
+						}
+						return out
+					}
+				}
+			}
+			return linAtom(noEpoch(t))
+		}
+		if gc.Undecided == "" {
+			for _, g := range gc.GCs {
+				if g.Exit.Op != "return" || len(g.Exit.Args) != 2 {
+					continue
+				}
+				n++
+				st, en := shl(g.Exit.Args[0]), shl(g.Exit.Args[1])
+				d := en.add(st, -1).add(st, -1).add(linConst(1), -1)
+				if len(d.c) == 0 && d.k != 0 {
+					bad = append(bad, fmt.Sprintf("end - start is (start + 1) %+d: start = %s, end = %s", d.k, trunc(noEpoch(g.Exit.Args[0]), 100), trunc(noEpoch(g.Exit.Args[1]), 140)))
+				}
+			}
+		}
+		if len(bad) > 0 {
+			r.bad(key, clause, p.FuncPos(fn), strings.Join(dedup(bad), "\n"))
+		} else if n > 0 {
+			r.ok(key, clause, p.FuncPos(fn), fmt.Sprintf("%d return path(s); where both ends are linear over the same powers of two, end - start = start + 1", n))
+		}
+	}
 	// the iterator orders each level with a temporary heap: that heap must be ordered by the heap's own comparator (the very
 	// function value — a wrapper that swaps or reverses it orders ties differently from the way Pop does)
 	if it := typeByKey(p, "trees/binaryheap.Iterator"); it != nil {
